@@ -140,17 +140,22 @@ def handleKey {G : Type} [DecidableEq G] (tf : TF G) (ev : KeyEv G) : TF G × Li
     (reset tf, [.submit tf.value])
   else (tf, [])
 
-/-- The cursor column computed by `Draw` (for `Max.Width > 0 && Max.Height > 0`): the loop over
-`ctx.Characters(tf.Value)` with `col += uint16(char.Width)`; `width g` is `Character.Width`. -/
-def drawLoop {G : Type} (width : G → Nat) (cursor : Nat) : List G → Nat → UInt16 → UInt16 → Nat × UInt16 × UInt16
+/-- The inner loop of `Draw`: `for _, char := range ctx.Characters(cluster) { WriteCell; col += uint16(char.Width) }`
+over the widths of the characters one grapheme is drawn as (one character, except a tab: 8 blanks). -/
+def drawChars (ws : List Nat) (col : UInt16) : UInt16 := ws.foldl (fun c w => c + UInt16.ofNat w) col
+
+/-- The cursor column computed by `Draw` (for `Max.Width > 0 && Max.Height > 0`; F417 fix): the loop
+walks `tf.Value` grapheme by grapheme, draws `ctx.Characters(cluster)` (`chars g` = their widths) with
+`col += uint16(char.Width)`, then `i += 1; if i == tf.cursor { s.Cursor.Col = col }`. -/
+def drawLoop {G : Type} (chars : G → List Nat) (cursor : Nat) : List G → Nat → UInt16 → UInt16 → Nat × UInt16 × UInt16
   | [], i, col, cur => (i, col, cur)
   | g :: gs, i, col, cur =>
-    let col := col + UInt16.ofNat (width g)
+    let col := drawChars (chars g) col
     let i := i + 1
-    drawLoop width cursor gs i col (if i = cursor then col else cur)
+    drawLoop chars cursor gs i col (if i = cursor then col else cur)
 
-def drawCursorCol {G : Type} (width : G → Nat) (tf : TF G) : UInt16 :=
-  let r := drawLoop width tf.cursor tf.value 0 0 0
+def drawCursorCol {G : Type} (chars : G → List Nat) (tf : TF G) : UInt16 :=
+  let r := drawLoop chars tf.cursor tf.value 0 0 0
   if r.1 < tf.cursor then r.2.1 else r.2.2
 
 end VaxisModel.Model.TextField
